@@ -115,10 +115,24 @@ func verifMkContainer(tag string, typ, maxArr, maxRuns, nWords int, bg uint64) (
 				verifAssume(s.runs[i].last-s.runs[i].start < uint16(rl))
 			}
 		}
-		cp := make([]interval16, n)
+		if verifDense && verifNearBase >= 0 {
+			// dense variant: a long concrete run outside the symbolic window
+			// pushes the cardinality over the array/bitmap thresholds
+			filler := interval16{start: 8192, last: 8192 + 4999}
+			if verifNearBase*64 < 8192 {
+				s.runs = append(s.runs, filler)
+			} else {
+				s.runs = append([]interval16{filler}, s.runs...)
+			}
+		}
+		cp := make([]interval16, len(s.runs))
 		copy(cp, s.runs)
 		return NewContainerRun(cp), s
 	default:
+		if verifDense {
+			bg = ^uint64(0)
+			s.bg = bg
+		}
 		// symbolic words: a window of nWords adjacent words whose base is a
 		// choice among container edges / middle (bound "bases")
 		bases := []int{0, bitmapN - nWords, 510}
@@ -229,9 +243,16 @@ func (s *verifSet) countIn(lo, hi uint16) int32 {
 			n += int32(verifIteU32(a <= b, b-a+1, 0))
 		}
 	case 2:
-		// background assumed empty for counting
+		// background: empty or all ones
 		for i, p := range s.wpos {
 			n += verifWordMaskCount(s.words[i], p, lo, hi)
+		}
+		if s.bg != 0 {
+			rest := int32(verifIteU32(lo <= hi, uint32(hi)-uint32(lo)+1, 0))
+			for _, p := range s.wpos {
+				rest -= verifWordMaskCount(^uint64(0), p, lo, hi)
+			}
+			n += rest
 		}
 	}
 	return n
@@ -259,13 +280,30 @@ func verifInterCount(a, b *verifSet) int32 {
 			n += a.countIn(b.runs[i].start, b.runs[i].last)
 		}
 	default:
+		common := 0
 		for i, p := range a.wpos {
+			hit := false
 			for j, q := range b.wpos {
 				if p == q {
 					n += int32(popcount(a.words[i] & b.words[j]))
+					hit = true
+					common++
 				}
 			}
+			if !hit {
+				n += int32(popcount(a.words[i] & b.bg))
+			}
 		}
+		for j, q := range b.wpos {
+			hit := false
+			for _, p := range a.wpos {
+				hit = hit || p == q
+			}
+			if !hit {
+				n += int32(popcount(b.words[j] & a.bg))
+			}
+		}
+		n += int32(bitmapN-len(a.wpos)-len(b.wpos)+common) * int32(popcount(a.bg&b.bg))
 	}
 	return n
 }
@@ -302,9 +340,13 @@ func verifPair(p int) (*Container, *verifSet, *Container, *verifSet) {
 			b, sb = verifMkContainer("b", tb, ma, mr, nw, 0)
 		}
 	}
+	verifLastNear = verifNearBase
 	verifNearBase = -1
 	return a, sa, b, sb
 }
+
+// verifLastNear: the window base the last verifPair call used (-1: none).
+var verifLastNear = -1
 
 // verifNearBase >= 0 confines verifNearU16 to [base*64, base*64+127] (clamped
 // so that the window stays inside the container).
